@@ -8,6 +8,7 @@ Result: counts + list of findings (cex / raise-mismatch), each already replayed 
 """
 from __future__ import annotations
 
+import json
 import time
 import traceback
 import warnings
@@ -676,7 +677,14 @@ def run_job(job):
                 v = _validate(h, m, r.info)
                 res["validated"] += 1
                 if v:
+                    reals = v.pop("_reals", None)
                     res["divergences"].append(v)
+                    # the models agreed on this path, an engine did something else: if the two REAL sides disagree with each other on this
+                    # witness the property is violated there, whatever the models say (reported like any other confirmed counterexample)
+                    if reals is not None and _validated_witness_differs(h, m, r.info, reals):
+                        res["findings"].append({"why": "the real engines disagree on a validated witness (the models predicted agreement): " + json.dumps(v["sides"], default=str)[:300],
+                                                "kf": [], "status": "confirmed", "input": v["input"],
+                                                "engines": {"A": {"real": reals[0][0], "exc": reals[0][1]}, "B": {"real": reals[1][0], "exc": reals[1][1]}}})
             except Exception:
                 res["notes"].append("validation error: " + traceback.format_exc()[-300:])
 
@@ -758,17 +766,39 @@ def _validate(h, model, info):
     tables = rel.concretize_tables(model, info["tabs"])
     frames = rel.real_frames(tables, h.job["schema"])
     out = []
+    reals = []
     for side, sr in ((h.A, info["a"]), (h.B, info["b"])):
         if getattr(side, "is_reference", False):
+            reals.append(None)
             continue
         real, exc = side.real(frames)
+        reals.append((real, exc))
         pred = rel.predicted(model, sr)
         ok, detail = rel.validate_side(pred, real, exc, sr.exc, ordered=bool(sr.ordered))
         if not ok:
             out.append({"side": side.name, "detail": detail[:600]})
     if out:
-        return {"input": tables, "sides": out}
+        return {"input": tables, "sides": out, "_reals": reals if all(r is not None for r in reals) else None}
     return None
+
+
+def _validated_witness_differs(h, model, info, reals):
+    """two REAL engine sides on a witness of a path the models discharged: True only when it is safe to compare them and they really differ"""
+    j = h.job
+    if j.get("compare") or j.get("check_cols") or j.get("b_may_raise"):
+        return False
+    if any(getattr(s, "is_reference", False) or getattr(s, "dialect", "sqlite") != "sqlite" for s in (h.A, h.B)):
+        return False  # references have no engine; a stand-in engine is not the dialect's engine
+    for sr in (info["a"], info["b"]):
+        if not sr.ok or not z3_free_of_dc(sr):
+            return False  # accepted differences / known findings may be involved: only model-predicted disagreements count there
+        pred = rel.predicted(model, sr)
+        if pred is None or any(any(w) for w in pred[2]):
+            return False
+    (ra, ea), (rb, eb) = reals
+    if ea is not None or eb is not None:
+        return (ea is None) != (eb is None)
+    return not rel.concrete_tables_match(ra[0], ra[1], rb[0], rb[1], ordered=bool(info.get("ordered")))
 
 
 def _concrete_disagreement(h, model, info, reals):
